@@ -20,6 +20,7 @@ var (
 	ErrStructureChanged  = errors.New("object structure changed")
 	ErrExtensionMismatch = errors.New("extension mismatch")
 	ErrUnindexedField    = errors.New("field is not indexed")
+	ErrUnindexableType   = errors.New("type cannot be indexed")
 
 	DefaultExtension   = ".json"
 	DefaultCompression = false
@@ -125,6 +126,13 @@ func (s *Schema) initialize(db *DB, o Object) (err error) {
 	// initialize fields
 	if s.Fields == nil {
 		s.Fields = FieldDescriptors(o)
+	}
+
+	// a field which cannot be casted cannot be indexed
+	for _, fd := range s.Fields {
+		if _, ok := fd.castOk(); !ok && (fd.Constraints.Index || fd.Constraints.Unique) {
+			return fmt.Errorf("%w: field %s of type %s", ErrUnindexableType, fd.Path, fd.Type)
+		}
 	}
 
 	// initializes the list of tranformers
@@ -287,6 +295,17 @@ func (s *Schema) control() (err error) {
 	// control that object structure did not change
 	if err := s.Fields.FieldsCompatibleWith(FieldDescriptors(s.object)); err != nil {
 		return fmt.Errorf("%T %w: %s", s.object, ErrStructureChanged, err)
+	}
+
+	// controlling that field indexes are those the fields call for
+	for fn, fi := range s.ObjectIndex.Fields {
+		fd, ok := s.Fields[fn]
+		if !ok {
+			return fmt.Errorf("%w: index on unknown field %s", ErrMalformedIndex, fn)
+		}
+		if cast, ok := fd.castOk(); !ok || cast != fi.Cast {
+			return fmt.Errorf("%w: index of field %s (%s) casts to %s", ErrMalformedIndex, fn, fd.Type, fi.Cast)
+		}
 	}
 
 	// controlling index in memory
